@@ -7,7 +7,7 @@ Property theorems on the container model (`Model/Container.lean`): for every sto
 object the raw tree holds the JSON Schema of its schema, the chain of parent schemas and the
 record of the providing package, these equal what the plugin system (`Env`) reports, and the
 caches of a freshly opened container (`reload`) report exactly that. The invariant `Inv e s` is
-established by C06 (`sync_init`, `sync_step…`). The conformance of stored objects to the embedded
+established by C06 (`sync_init`, `sync_step`, `sync_run`). The conformance of stored objects to the embedded
 JSON Schema is the `Codec` part of C20 (`jsonschema_conforms`, C12 model) and not in this file.
 -/
 namespace MetadorModel.C20
@@ -80,6 +80,12 @@ theorem reload_reports_only_used (he : WFEnv e) (hi : Inv e s) {r : SRef}
     (h : r ∈ (reload s.raw).schemas) : UsedIn s.raw r :=
   ((reload_inv he hi).scache.schemas r).mp h
 
+/-- every state reachable from a fresh container is self-describing, and so is the reopened one -/
+theorem self_describing_reachable (he : WFEnv e) (ops : List Op) (h : ∀ op ∈ ops, OpOK op) :
+    SelfDescribing e (run e initSt ops) ∧ SelfDescribing e (opReopen (run e initSt ops)).2 :=
+  have hi := MetadorModel.C06.sync_run he ops initSt (MetadorModel.C06.sync_init e) h
+  ⟨self_describing he hi, self_describing_reopen he hi⟩
+
 /-! ## Non-vacuity -/
 
 open MetadorModel.C06 in
@@ -87,10 +93,10 @@ open MetadorModel.C06 in
 chain `[aa, bb, cc]` and the package record, and a reopened container reports them -/
 example : Reports env3 (reload (run env3 initSt hist1).raw) cc :=
   self_describing_after_reload env3_wf
-    (sync_run_partial env3_wf hist1 initSt (sync_init env3) (by simp [hist1, NoCopyMove])) hist1_obj
+    (sync_run env3_wf hist1 initSt (sync_init env3) (by decide)) hist1_obj
 
 open MetadorModel.C06 in
 example : alGet (reload (run env3 initSt hist1).raw).parents cc = some [aa, bb, cc] ∧
-    alGet (reload (run env3 initSt hist1).raw).providers cc = some [pk1] := by decide
+    alGet (reload (run env3 initSt hist1).raw).providers cc = some [pk1] := by decide +kernel
 
 end MetadorModel.C20
